@@ -759,7 +759,7 @@ def _stratum(spec):
 # ----------------------------------------------------------------------------------------------
 def shards(tier, seed):
     nsh = 16 if tier == 'quick' else 32
-    nprob = 6 if tier == 'quick' else 60
+    nprob = 6 if tier == 'quick' else 40
     return [{'seed': seed * 100003 + 7919 * k + 11, 'n': nprob, 'tier': tier} for k in range(nsh)]
 
 
